@@ -220,7 +220,10 @@ def _order(repo, rep):
               construct="detect-whole-body", where=L.where(de), detail=detail)
     xe = repo.func(U + "read_xml_encoding")
     t = L.text(xe.node)
-    rep.check("RE_ENCODING.search(body)" in t and "return None" in t and
+    rep.check(any(isinstance(n, ast.Call) and
+                  src(n.func) == "RE_ENCODING.search" and n.args and
+                  src(n.args[0]).startswith("body") for n in ast.walk(
+                      xe.node)) and "return None" in t and
               "body.startswith(b'<?xml')" in t, "R17.1", xe.qualname,
               "the declared encoding is read from a document that starts "
               "with <?xml only", construct="xml-encoding", where=L.where(xe))
@@ -305,6 +308,8 @@ def _order(repo, rep):
     rep.check(bool(getattr(er, "flags", 0) & 2), "R17.1", site_re,
               "the declaration is matched case-insensitively",
               construct="decl-ignorecase")
+    _declaration_scope(repo, rep)
+    _meta_grammar(repo, rep)
     dv = repo.cls("chameleon.template.BaseTemplate").attrs.get(
         "default_encoding")
     rep.check(isinstance(dv, ast.Constant) and dv.value == "utf-8", "R17.1",
@@ -404,3 +409,123 @@ def _mode(repo, rep):
               "implicit boolean attributes and newline rewriting are HTML-"
               "only (guarded by content_type != 'text/xml')",
               construct="xml-guards", where=L.where(p))
+
+
+def _declaration_scope(repo, rep):
+    """The encoding is the one *in the XML declaration*: the pattern may
+    only be looked for between '<?xml' and the first '?>' (an attribute
+    encoding="..." further down is document content)."""
+    xe = repo.func(U + "read_xml_encoding")
+    calls = [n for n in ast.walk(xe.node) if isinstance(n, ast.Call)
+             and isinstance(n.func, ast.Attribute)
+             and src(n.func.value) == "RE_ENCODING"]
+    ok = False
+    detail = ""
+    for c in calls:
+        full = L.inline_locals(xe.node, c)
+        t = src(full).replace(" ", "")
+        detail = src(full)[:140]
+        bounded = len(c.args) >= 3 or (
+            c.args and isinstance(L.inline_locals(xe.node, c.args[0]),
+                                  ast.Subscript))
+        ok = bounded and ("find(b'?>'" in t or "index(b'?>'" in t or
+                          "partition(b'?>')" in t or "split(b'?>'" in t)
+    rep.check(ok, "R17.1", xe.qualname, "the declared encoding is looked for "
+              "inside the XML declaration only (up to the first '?>')",
+              construct="declaration-only", where=L.where(xe), detail=detail)
+
+
+def _meta_grammar(repo, rep):
+    """<meta http-equiv=Content-Type content="type; charset=X">: either
+    attribute order, quoted or not; an unquoted charset ends with the value
+    (white space, '/', '>')."""
+    from .. import rx
+    import re as _re
+    C = rx.C
+    rc = repo.const("chameleon.utils", "RE_META")
+    pat = rc.pattern
+    tree = list(rx.parse(pat, rc.flags))
+
+    def literal_runs(items):
+        """sequence of literal words in one alternative"""
+        out, cur = [], ""
+        for op, av in items:
+            if op is C.LITERAL:
+                cur += chr(av).lower()
+                continue
+            if cur:
+                out.append(cur)
+                cur = ""
+            if op is C.SUBPATTERN:
+                out += literal_runs(av[3])
+            elif op in (C.MAX_REPEAT, C.MIN_REPEAT):
+                out += literal_runs(av[2])
+        if cur:
+            out.append(cur)
+        return out
+
+    def alternatives(items):
+        """flatten top-level branches into alternative item lists"""
+        alts = [[]]
+        for op, av in items:
+            if op is C.BRANCH:
+                new = []
+                for a in alts:
+                    for b in av[1]:
+                        for sub in alternatives(list(b)):
+                            new.append(a + sub)
+                alts = new
+            elif op is C.SUBPATTERN and av[0] is None:
+                new = []
+                for a in alts:
+                    for sub in alternatives(list(av[3])):
+                        new.append(a + sub)
+                alts = new
+            else:
+                alts = [a + [(op, av)] for a in alts]
+        return alts
+    orders = set()
+    for alt in alternatives(tree):
+        words = [w for w in literal_runs(alt)
+                 if w.startswith(("http-equiv", "content"))]
+        # 'content-type' (the value) also starts with 'content': keep the
+        # attribute names only
+        seq = []
+        for w in words:
+            if w.startswith("http-equiv"):
+                seq.append("h")
+            elif w.startswith("content") and not w.startswith("content-type"):
+                seq.append("c")
+        orders.add("".join(seq))
+    rep.check({"hc", "ch"} <= orders, "R17.1", U + "RE_META", "the meta "
+              "element is recognised with http-equiv before content and "
+              "with content before http-equiv", construct="meta-order",
+              detail="orders accepted: %s" % sorted(orders))
+    # charset value class
+    classes = []
+
+    def walk(items):
+        for op, av in items:
+            if op is C.SUBPATTERN:
+                if av[0] is not None:
+                    inner = list(av[3])
+                    if len(inner) == 1 and inner[0][0] in (
+                            C.MAX_REPEAT, C.MIN_REPEAT):
+                        b = list(inner[0][1][2])
+                        if len(b) == 1 and b[0][0] is C.IN:
+                            classes.append((av[0], rx.in_set(b[0][1])))
+                walk(av[3])
+            elif op in (C.MAX_REPEAT, C.MIN_REPEAT):
+                walk(av[2])
+            elif op is C.BRANCH:
+                for a in av[1]:
+                    walk(a)
+    walk(tree)
+    # every capturing single-class group must stop at '>' unless it is the
+    # content-type group (which stops at ';')
+    bad = [str(cs)[:60] for gid, cs in classes
+           if ">" in cs and ";" in cs]
+    rep.check(bool(classes) and not bad, "R17.1", U + "RE_META", "an "
+              "unquoted charset value ends at white space, '/' or '>' (it "
+              "cannot run on into the document)",
+              construct="meta-charset-class", detail=str(bad))
